@@ -194,6 +194,14 @@ def run(run: Run):
         run.bump("concurrent calls", r.get("calls", 0))
         if r["mismatches"]:
             run.violation(f"concurrent calls returned results different from the single-threaded baseline: {r['mismatches'][:3]}", {"kind": "gens", "spec": {"op": "threads"}, "observed": r["mismatches"][:10]})
+    # (c2) the FIRST use of a fresh parameter object raced by all threads at once (tables or caches built lazily must not be observable), round after round
+    shapes2 = [(8, 4, 1), (16, 2, 2), (4, 8, 1)] if quick else [(8, 4, 1), (16, 2, 2), (4, 8, 1), (32, 2, 1), (8, 16, 3), (64, 2, 1)]
+    for (b, c, T), r in zip(shapes2, run_harness(["gens"], [{"op": "fresh_race", "threads": 12, "rounds": 12 if quick else 60, "bits": b, "cap": c, "T": T} for (b, c, T) in shapes2], jobs=len(shapes2))):
+        run.count(["fresh-race", b, c, T], {"check": "first use of a fresh shared parameter object raced by 12 threads, vs a lone thread", "bits": b, "capacity": c, "T": T, "calls": r.get("calls")})
+        run.bump("raced first uses", r.get("calls", 0))
+        if r["mismatches"]:
+            run.violation(f"prove/verify on a fresh ({b}, {c}) parameter object gives another result when its first use is raced by several threads than for a lone thread: {r['mismatches'][:3]}",
+                          {"kind": "gens", "spec": {"op": "fresh_race", "threads": 12, "rounds": 60, "bits": b, "cap": c, "T": T}, "observed": r["mismatches"][:10]})
     # (d) racing first use, fresh processes
     nrace = 8 if quick else 120
     race = run_harness(["gens"], [{"op": "threads", "race_first_use": True, "degrees": rng.sample([1, 2, 3, 4, 5, 6], 6)} for _ in range(nrace)], jobs=nrace)
@@ -206,7 +214,7 @@ def run(run: Run):
         "proof",
         "call histories (each session alone in a fresh process vs repeated / shuffled / reversed inside one process, both back ends), generator request sequences in fresh processes "
         "(result must not depend on earlier requests), parameter objects of several shapes created / used / dropped in varying orders in one process vs a fresh-process baseline, 16 threads sharing parameter objects running prove / verify / recover / generator construction against a single-threaded baseline, "
-        "and fresh processes racing the first use of the cached tables; distinct by (kind, session or request sequence, variant)",
+        "fresh shared parameter objects whose first use is raced by 12 threads round after round, and fresh processes racing the first use of the cached tables; distinct by (kind, session or request sequence, variant)",
         ["schedules are whatever the OS produces on 16 cores; the logical once-cell model covers all schedules"],
         TRUSTED)
 
